@@ -319,6 +319,7 @@ pub fn parse_proj(definition: &str) -> Result<String, Error> {
                         ));
                     }
                     elements.remove(0);
+                    tidy_proj(&mut elements)?;
 
                     // The case of 'inv' in globals must be handled separately, since it indicates
                     // the inversion of the entire pipeline, not just an inversion of each step
